@@ -18,22 +18,22 @@ NA = {
 }
 CHECKS = {
  "C03": dict(level="exploration", design="3.1", technique="deterministic simulation: generated client vs simulated API server over the httpx transport seam, virtual-time asyncio loop, seeded baton scheduler for caller threads (line-level pre-emption), seeded schedules and transport faults, wire reference model",
-   text="Seeded exploration of sessions of sync calls, concurrently scheduled asyncio calls and blocking calls from 2-4 caller threads interleaved statement by statement by a seeded scheduler, all on one shared object of REAL generated clients against a simulated API server; every request is checked against a wire reference model computed from the document and the arguments (exactly-once per call, location/name/slot of every argument, body per announced Content-Type, sync==async twins, auth header, per-call isolation under interleaving). Sampling, not proof.",
+   text="Seeded exploration of sessions of sync calls, concurrently scheduled asyncio calls and blocking calls from 2-4 caller threads interleaved statement by statement by a seeded scheduler, all on one shared object of REAL generated clients against a simulated API server; every request is checked against a wire reference model computed from the document and the arguments (exactly-once per call, location/name/slot of every argument, body per announced Content-Type, sync==async twins - half of them passing the first call's argument objects again -, security requirement incl. the document-level default, auth header, per-call isolation under interleaving). One of the four process configurations runs the interpreter with -O. Sampling, not proof.",
    note="Trusted: the wire reference model and instance generator in /verif/sim; httpx's own encoding of URLs/cookies/multipart is real code; transport, server, clock and os.urandom are stubs. Workload bounds in DESIGN 2.4/A.2."),
  "C04": dict(level="exploration", design="3.2", technique="deterministic simulation: simulated API server answers (documented/undocumented status, media types, latency, transport faults) under virtual time; reference decoder; sync==async",
-   text="Seeded exploration of server behaviours per call: each documented (status, media type), undocumented statuses inside and outside http.HTTPStatus, both raise flags, detailed/plain and sync/asyncio variants, transport faults; decoded result compared with a reference decoder built from schema + JSON value. Sampling, not proof.",
+   text="Seeded exploration of server behaviours per call: each documented (status, media type), undocumented statuses inside and outside http.HTTPStatus, both raise flags, detailed/plain and sync/asyncio variants, transport faults; zero-length bodies, falsy values; decoded result compared with a reference decoder built from schema + JSON value; one of the four process configurations runs python -O. Sampling, not proof.",
    note="Trusted: reference decoder (/verif/sim/instances.py), normal forms of DESIGN A.3; only schema-valid bodies and the media types the property lists are sent."),
  "C06": dict(level="fault_enumeration", design="3.3", technique="deterministic simulation with fault injection on the document channel (tree/byte/network faults), FS op log, deterministic step budget; thorough tier enumerates the single-fault space of seed documents",
-   text="Fault injection against the document channel of the REAL CLI run in-process: seeded multi-fault sampling (tree faults incl. key renaming and reference cycles, byte faults, non-document corpus, network faults, native YAML scalars) plus (thorough) complete enumeration of the single-tree-fault space of seed documents, over worlds that also vary the state of the output location, --overwrite, real post-hook subprocesses and the generator configuration; oracles: terminates within a deterministic step budget (wall-clock backstop for loops outside bytecode), no unhandled exception, exit status <=> diagnostics, diagnostics printed, a rejection writes/removes nothing (FS op log + snapshot), no write outside the sandbox.",
+   text="Fault injection against the document channel of the REAL CLI run in-process: seeded multi-fault sampling (tree faults incl. key renaming and reference cycles, byte faults, non-document corpus, network faults, native YAML scalars, parameters described with content, failing post hooks with non-UTF-8 output) plus (thorough) complete enumeration of the single-tree-fault space of seed documents, over worlds that also vary the state of the output location, --overwrite, real post-hook subprocesses and the generator configuration; oracles: terminates within a deterministic step budget (wall-clock backstop for loops outside bytecode), no unhandled exception, exit status <=> diagnostics, diagnostics printed, a rejection writes/removes nothing (FS op log + snapshot), no write outside the sandbox.",
    note="Trusted: CliRunner faithfully reports exceptions/exit codes; the document server behind httpx.get is a stub that only raises what httpx.get can raise; bounds of DESIGN 2.4; nesting up to 1100 schema levels / 5000 value levels."),
  "C08": dict(level="fault_enumeration", design="3.4", technique="deterministic simulation with fault injection: bad pieces inserted at enumerated positions of a clean document, fault-free twin, dependency-cone reference model, byte comparison of trees + import of survivors",
-   text="For seeded clean documents, bad pieces from a library are inserted at enumerated applicable positions (thorough: every (piece, position) pair); the faulted output is compared module by module with the fault-free twin outside the dependency cone computed from the document alone; every removed/changed item must be named by a diagnostic, every surviving module must import, and (a fifth of the runs) regenerating the faulted document with --overwrite over the clean tree must give the same tree as generating it afresh.",
+   text="For seeded clean documents, bad pieces from a library are inserted at enumerated applicable positions (thorough: every (piece, position) pair, among the positions name clashes between a schema's inline children and other components, a bad property after a clashing sibling, a new bad namesake operation); the faulted output is compared module by module with the fault-free twin outside the dependency cone computed from the document alone; every removed/changed item must be named by a diagnostic, every surviving module must import, and (a fifth of the runs) regenerating the faulted document with --overwrite over the clean tree must give the same tree as generating it afresh.",
    note="Trusted: the cone reference model and name-prefix provenance in /verif/checks/c08.py; documents come from docgen with prefix-free top-level names."),
  "C12": dict(level="exploration", design="3.5", technique="deterministic simulation of process-level nondeterminism: one interpreter per PYTHONHASHSEED, environment skew, warm-process histories, post-hook seam; byte comparison of trees; map-order permutations",
-   text="Each seeded document is generated in a matrix of process configurations (4-8 hash seeds out of a pool of 16 interpreters, TZ/locale/cwd/umask skew, cold vs warm-process history incl. histories under another configuration, generation over an output directory with its own history, hooks off / ruff / ruff absent) and all trees are compared byte for byte; for diagnostic-free documents, permutations of components.schemas and paths must give identical module sets and contents. Hash seeds are sampled, not enumerated.",
+   text="Each seeded document is generated in a matrix of process configurations (4-8 hash seeds out of a pool of 16 interpreters, TZ/locale/cwd/umask skew, cold vs warm-process history incl. histories of up to nine generations and histories under another configuration, python -O, JSON / YAML / native-YAML-scalar serialisation, generation over an output directory with its own history, hooks off / ruff / ruff absent) and all trees are compared byte for byte; for diagnostic-free documents, permutations of components.schemas and paths must give identical module sets and contents. Hash seeds are sampled, not enumerated.",
    note="Trusted: tree snapshot/digest code; ruff is a real subprocess observed by snapshot only."),
  "C19": dict(level="fault_enumeration", design="3.6", technique="deterministic simulation: stateful histories of generate commands, user edits, crashes at enumerated FS-operation indices, torn writes and disk errors against one output location on real tmpfs under an interposed FS layer; refinement against 'fresh generation + user files'",
-   text="Seeded histories (GEN / USER / CRASHGEN / DISKERR) against one output location that may exist before the first generation (empty, hidden entries only, user files), with hostile document names, degenerate successor documents, custom template directories, real post-hook subprocesses and one process id per generate command; invariants after every op and at every FS operation: confinement (op log with blocking of escapes + sentinel snapshot), no-overwrite leaves the tree untouched with an error, overwrite converges to fresh(doc) + user files also after crashes at every enumerated FS-op index (thorough: all indices, both crash flavours).",
+   text="Seeded histories (GEN / USER / CRASHGEN / DISKERR / RACEGEN: two concurrent commands interleaved at file-system calls by a seeded scheduler) of ONE process - each command starts in the working directory the previous one left - against one output location that may exist before the first generation (empty, hidden entries only, user files) or lie below parents that do not exist, with hostile document names, degenerate successor documents, custom template directories, real post-hook subprocesses (the spawn is an operation of the FS seam) and one process id per generate command; invariants after every op and at every FS operation: confinement (op log with blocking of escapes + sentinel snapshot), no-overwrite leaves the tree untouched with an error, overwrite converges to fresh(doc) + user files also after crashes at every enumerated FS-op index (thorough: all indices, both crash flavours).",
    note="Trusted: the FS interposition layer sees every mutating call the generator makes (cross-checked by snapshots); a simulated crash unwinds the Python stack, torn writes are injected explicitly; no power-loss / fsync model."),
 }
 m = {
